@@ -82,7 +82,7 @@ type Case struct {
 	Tree    Tree   `json:"tree"`
 }
 
-var spaceOrder = map[string]int64{"probe": 0, "C-chains": 1, "A-names-shapes": 2, "B-contents": 3, "D-wide": 4, "E-scratch-names": 5}
+var spaceOrder = map[string]int64{"probe": 0, "C-chains": 1, "A-names-shapes": 2, "B-contents": 3, "D-wide": 4, "E-scratch-names": 5, "F-case-and-dots": 6}
 var backendNames = []string{"mem", "os"}
 var limitNames = []string{"none", "nonrecursive", "recursive"}
 
@@ -188,6 +188,9 @@ func produce(thorough bool, emit func(*Case)) (trees int64) {
 	fan("D-wide", 0, wideTree(), true)
 	// siblings whose names are another sibling's name plus a suffix an implementation might use for its own scratch files
 	e := &space{Name: "E-scratch-names", names: []string{"a", "a.part", "a.tmp", "a~", ".a.swp"}, leaves: []int{-1, c1B}, maxSize: 3}
+	e.each(func(idx int64, t Tree) { fan(e.Name, idx, t, false) })
+	// names that differ only by case, and names made of dots only (legal: three dots or more)
+	e = &space{Name: "F-case-and-dots", names: []string{"a", "A", "é", "É", "...", "...."}, leaves: []int{-1, c1B}, maxSize: 3}
 	e.each(func(idx int64, t Tree) { fan(e.Name, idx, t, false) })
 	return
 }
